@@ -10,7 +10,7 @@ from ..models import KEYS
 from ..observe import observe
 from ..refs import components
 
-TIERS = {"quick": 400, "thorough": 5000}
+TIERS = {"quick": 1000, "thorough": 15000}
 WATCHDOG_S = {"quick": 900, "thorough": 7200}
 RULE = ("one case = one generated container (3 of 4 cases a Hypergraph on 1-9 nodes with hyperedge sizes 1-5, forced isolated "
         "nodes and singleton hyperedges, all label universes; every 4th case the end state of a D/T/M history, degrees only) "
